@@ -561,6 +561,10 @@ func buildAlphabet() []op {
 	add("call", false, sCall{"z", []stmt{sLet{mem(z, "n"), litInt(2)}}, mm})
 	add("call", false, sCall{"z", []stmt{sLet{idx(z, litInt(0)), litStr("y")}}, s})
 	add("call", false, sCall{"z", []stmt{sLet{idx(z, litInt(0)), litInt(9)}}, t})
+	// a parameter bound to a number read from a typed slot is a value of its own: a
+	// store into the slot inside the callee does not change it
+	add("call/param-value", false, sCall{"z", []stmt{sLet{idx(t, litInt(0)), litInt(9)}, sLet{idx(a, litInt(0)), z}}, idx(t, litInt(0))})
+	add("call/param-value", false, sCall{"z", []stmt{sLet{mem(st, "A"), litInt(9)}, sLet{idx(a, litInt(1)), z}}, mem(st, "A")})
 	add("call", false, sCall{"z", []stmt{sAddEq{z, litSl8}}, u})
 	add("call", false, sCall{"z", []stmt{sLet{idx(z, eLen{z}), litInt(8)}}, mem(st, "C")})
 	add("call", false, sCall{"z", []stmt{sLet{idx(z, eLen{z}), litInt(8)}}, idx(rows, litInt(0))})
